@@ -174,7 +174,9 @@ B0_Start ==
 TimingOf(a, c) ==
   [time |-> [w |-> IF a.kind \in {"wall", "both"} THEN Some([s |-> c.w + a.dt, ns |-> 123456789]) ELSE None,
              m |-> IF a.kind \in {"mono", "both"} THEN Some([s |-> c.m + a.dt, ns |-> 0]) ELSE None],
-   minwait |-> IF IsSome(a.minwait) THEN Some([s |-> a.minwait[1], ns |-> 0]) ELSE None]
+   minwait |-> IF "mwms" \in DOMAIN a /\ IsSome(a.mwms)
+                 THEN Some([s |-> a.mwms[1] \div 1000, ns |-> (a.mwms[1] % 1000) * 1000000])
+               ELSE IF IsSome(a.minwait) THEN Some([s |-> a.minwait[1], ns |-> 0]) ELSE None]
 SchedEv(ctx, c) == Stamp([k |-> "ev", e |-> "sched", lut |-> ctx.lut, lct |-> ctx.lct, next |-> ctx.next], c)
 PsOf(ctx) == [poll |-> ctx.poll, fails |-> ctx.fails]
 SchedArg(ctx) == [lut |-> ctx.lut, lct |-> ctx.lct, next |-> ctx.next]
@@ -188,7 +190,8 @@ R5_Next(a, ret) ==
       n == st.cnt.next + 1
       tid0 == st.ids.tid
       arm == (IF IsSome(t.minwait)
-                THEN <<Stamp([k |-> "tm.arm", tid |-> tid0 + 1, t |-> "for", d |-> t.minwait[1], ms |-> t.minwait[1].s * 1000], c1)>>
+                THEN <<Stamp([k |-> "tm.arm", tid |-> tid0 + 1, t |-> "for", d |-> t.minwait[1],
+                              ms |-> t.minwait[1].s * 1000 + t.minwait[1].ns \div 1000000], c1)>>
                 ELSE <<>>)
              \o <<Stamp([k |-> "tm.arm", tid |-> tid0 + (IF IsSome(t.minwait) THEN 2 ELSE 1), t |-> "until", at |-> t.time], c1)>>
   IN /\ Emit(<<Stamp([k |-> "pol.next", n |-> n, apps |-> st.apps, sched |-> SchedArg(st.ctx), ps |-> PsOf(st.ctx), ans |-> a], c0),
